@@ -105,6 +105,8 @@ def check(run):
     sfailed = D.structural_generic(run, ["generation/simplifier.py"], excedge.obligations, "pyvc.excedge (AST analysis)",
                                    "exception-edge obligations of the time-limited regions (E1 timeout reaches the region's handler, E2 handler reads definitely assigned names, E3 parallel lists re-aligned)",
                                    needs_module_names=True)
+    sfailed = list(sfailed) + list(D.structural_generic(run, ["generation/simplifier.py"], excedge.time_limit_obligations, "pyvc.excedge (AST analysis)",
+                                                        "E4: the alarm of time_limit is cancelled on every way out of a region"))
     D.report_structural(run, sfailed, "excedge", "pyvc/excedge.py")
     # the handlers that re-align parallel lists after a timeout, verified from their AST (what E3 asks of them)
     from contracts import c_dosympy
